@@ -3,7 +3,9 @@
   (range over a map, wall clock, randomness, goroutines, select) — re-enumerated on every run.
   Expected and reviewed: two copies of the permission table in app.go (order-insensitive map
   builds), the key collection in validateLastOccurrence (sorted before use since D13), wall-clock
-  reads that only feed telemetry timers and the default-genesis constructor, and crypto/rand in the
+  reads that only feed telemetry timers and the default-genesis / default-params constructors (also
+  through the package variable `DefaultStartTime = time.Now()`, whose only reader is `DefaultParams`),
+  and crypto/rand in the
   CreateReferenceId *query* (not part of consensus).
 -/
 import C4E.Generated.Facts
@@ -16,6 +18,7 @@ theorem tie_nondet_sites : Generated.nondetSites = [
   "x/cfedistributor/types/sub_distributor.go:validateLastOccurrence:range-over-map",
   "x/cfeminter/abci.go:BeginBlocker:time.Now",
   "x/cfeminter/types/genesis.go:DefaultGenesis:time.Now",
+  "x/cfeminter/types/params.go:DefaultParams:reads-wallclock-var:DefaultStartTime",
   "x/cfesignature/keeper/grpc_query_create_reference_id.go:CreateReferenceId:rand.Read"] := by
   decide
 
